@@ -317,5 +317,62 @@ impl<K, S> Registry<K, S> where S: Storage<K>, K: Clone + Eq + Hashable {
 //@END
 }
 
+// ------------------------------------------------------------------ Registry::clear: every shard of every kind is visited
+/// R2: `for shard in &V` over a `Vec<RwLock<..>>` -> loop over shim_shards / shim_shard_next (std: the elements, in order, each once)
+#[verifier::external_body] #[verifier::reject_recursive_types(T)]
+pub struct ShardIter<'a, T> { _p: std::marker::PhantomData<&'a T> }
+pub mod shard_iter_axioms {
+    use vstd::prelude::*;
+    /// how many elements the iterator has still to yield
+    pub uninterp spec fn left<T>(it: &super::ShardIter<'_, T>) -> nat;
+}
+pub use shard_iter_axioms::left;
+#[verifier::external_body]
+pub fn shim_shards<'a, T>(v: &'a Vec<T>) -> (it: ShardIter<'a, T>) ensures left(&it) == v@.len() { unimplemented!() }
+#[verifier::external_body]
+pub fn shim_shard_next<'a, T>(it: &mut ShardIter<'a, T>) -> (r: Option<&'a T>)
+    ensures r is Some ==> left(old(it)) > 0 && left(final(it)) == left(old(it)) - 1,
+            r is None ==> left(old(it)) == 0 && left(final(it)) == 0,
+{ unimplemented!() }
+impl<K, V> hb::HashMap<K, V> {
+    #[verifier::external_body]
+    pub fn clear(&mut self) ensures final(self)@ == Map::<K, V>::empty() { unimplemented!() }
+}
+
+impl<K, S: Storage<K>> Registry<K, S> {
+//@ITEM file=metrics-util/src/registry/mod.rs sel=impl<K, S> Registry<K, S> where S: Storage<K>, :: fn clear
+//@FORLOOP 1 it1 shim_shards shim_shard_next
+//@FORLOOP 2 it2 shim_shards shim_shard_next
+//@FORLOOP 3 it3 shim_shards shim_shard_next
+//@SPEC
+    // ghost accounting (spliced after each real `.clear()` statement): how many shards of each kind were cleared under their lock
+//@BODYSTART
+        let ghost mut c1: nat = 0;
+        let ghost mut c2: nat = 0;
+        let ghost mut c3: nat = 0;
+//@LOOP 1
+            invariant c1 + left(&it1) == self.counters@.len(),
+            ensures left(&it1) == 0,
+            decreases left(&it1),
+//@AFTER 1 stmt:.clear();
+            proof { c1 = c1 + 1; }
+//@LOOP 2
+            invariant c2 + left(&it2) == self.gauges@.len(), c1 == self.counters@.len(),
+            ensures left(&it2) == 0,
+            decreases left(&it2),
+//@AFTER 2 stmt:.clear();
+            proof { c2 = c2 + 1; }
+//@LOOP 3
+            invariant c3 + left(&it3) == self.histograms@.len(), c1 == self.counters@.len(), c2 == self.gauges@.len(),
+            ensures left(&it3) == 0,
+            decreases left(&it3),
+//@AFTER 3 stmt:.clear();
+            proof { c3 = c3 + 1; }
+//@BODYEND
+        // clear() reaches every shard of every kind exactly once (what is in a shard's map is emptied by hashbrown's clear)
+        assert(c1 == self.counters@.len() && c2 == self.gauges@.len() && c3 == self.histograms@.len());
+//@END
+}
+
 } // verus!
 fn main() {}
